@@ -208,3 +208,30 @@ Section ServerReads.
     - subst n. unfold zlen in Hmin. lia.
   Qed.
 End ServerReads.
+
+(** the synthesised token on the wire: for every (ClientTokenLength, ClientTokenPrefix) pair
+    asking for a token, the Initial header carries the varint max(ClientTokenLength, |prefix|)
+    followed by the whole prefix and then bytes of the random source *)
+Lemma wire_token ver dcid scid ctl prefix tail conf lf pn pnLen :
+  tokenLength ctl prefix > 0 ->
+  (Z.to_nat (tokenLength ctl prefix) - length prefix <= length tail)%nat ->
+  valid_version ver -> zlen dcid <= 20 -> zlen scid <= 20 -> 0 <= lf <= 16383 -> 1 <= pnLen <= 4 ->
+  tokenLength ctl prefix <= maxVarInt8 ->
+  let k := (Z.to_nat (tokenLength ctl prefix) - length prefix)%nat in
+  exists t, resolveToken None ctl prefix tail conf = Some t /\
+    t = prefix ++ firstn k tail /\ zlen t = Z.max ctl (zlen prefix) /\
+    initialHeaderBytes ver dcid scid t lf pn pnLen
+    = (0, initialFirst ver pnLen
+          :: (be 4 ver ++ [zlen dcid] ++ dcid ++ [zlen scid] ++ scid ++
+              vappend (Z.max ctl (zlen prefix)) ++ (prefix ++ firstn k tail) ++ vappend_len lf 2)
+          ++ pn_bytes (Z.to_nat pnLen) pn).
+Proof.
+  intros Hpos Htail Hv Hd Hs Hl Hp Hmax k.
+  exists (prefix ++ firstn k tail).
+  assert (Hlen : zlen (prefix ++ firstn k tail) = Z.max ctl (zlen prefix)).
+  { unfold zlen. rewrite app_length, firstn_length. unfold tokenLength in *. subst k. lia. }
+  split; [apply resolveToken_is_prefix_oracle; assumption|]. split; [reflexivity|]. split; [exact Hlen|].
+  assert (W : wf_initial ver dcid scid (prefix ++ firstn k tail) lf pnLen).
+  { constructor; try assumption. rewrite Hlen. unfold tokenLength in Hmax. exact Hmax. }
+  rewrite (initial_header_bytes _ _ _ _ _ pn _ W). unfold mk_header, initialMid. rewrite Hlen. reflexivity.
+Qed.
